@@ -33,12 +33,28 @@ def actions(inner_prog):
         "nested": "X1.%s." % hx(inner_prog),
     }
 
+# where the invoking expression E stands in the program: (program text, expected value given the handler's tag)
+SITES = {
+    "plain":      (lambda e: e,                          lambda t: t),
+    "names-list": (lambda e: "[x, %s, x]" % e,           lambda t: "l(n(0,1,0);%s;n(0,1,0))" % t),
+    "pair":       (lambda e: "[%s, x]" % e,              lambda t: "l(%s;n(0,1,0))" % t),
+    "member":     (lambda e: "1 in [x, %s]" % e,         lambda t: "b(1)"),
+    "map":        (lambda e: "{x : %s}" % e,             lambda t: "m(n(0,1,0)=%s)" % t),
+    "map-key":    (lambda e: "{%s : x}" % e,             lambda t: "m(%s=n(0,1,0))" % t),
+    "cond":       (lambda e: "x == 1 ? %s : 0" % e,      lambda t: t),
+    "arg":        (lambda e: "ident(x, %s)" % e,         lambda t: t),
+    "assign":     (lambda e: "w = %s; w" % e,            lambda t: t),
+    "twice":      (lambda e: "%s == %s" % (e, e),        lambda t: "b(1)"),
+}
+
 class P:
     prop = "C14"
     rule = ("one fresh process per scenario, result awaited under an 8 s watchdog: every handler kind (global function, prefix, infix "
             "calc, infix setter, postfix operator, context function by call and by bare name) x every re-entrant action (parse, execute "
             "on the same / another context, register_function/prefix/infix/postfix, locking the evaluating context's public handle, "
-            "re-registering itself) x nesting depth 1..3 (a handler whose action executes a program that invokes the next handler) - "
+            "re-registering itself) x nesting depth 1..3 (a handler whose action executes a program that invokes the next handler); at "
+            "depth 1 also x ten sites of the invoking expression (alone, in a list of plain names, list, membership list, map value / key, "
+            "conditional branch, call argument, assignment, twice in one expression) - "
             "exhaustive. Oracle: the outer evaluation completes (no DEADLOCK, no PANIC) with the handler's normal result and the "
             "re-entrant effect is visible afterwards. Non-trivial = distinct scenario.")
     assumptions = ["deadlock = no result within the watchdog; the slowest completed scenario takes a few milliseconds"]
@@ -50,8 +66,9 @@ class P:
         for kind in kinds:
             setup_k, prog = KINDS[kind]
             for depth in (1, 2, 3):
-                for aname in ["parse", "execute-same-ctx", "execute-other-ctx", "register-function", "register-prefix", "register-infix",
-                              "register-postfix", "lock-ctx", "reregister-self"]:
+                for aname, site in [(a_, s_) for a_ in ["parse", "execute-same-ctx", "execute-other-ctx", "register-function", "register-prefix",
+                                                        "register-infix", "register-postfix", "lock-ctx", "reregister-self"]
+                                    for s_ in SITES if s_ == "plain" or (depth == 1 and kind != "infix-setter")]:
                     # handler chain: h1 (kind under test) -> ... -> h_depth performs the action
                     ops = []
                     hs = list(range(50, 50 + depth))
@@ -84,15 +101,17 @@ class P:
                                 o = ":".join(parts)
                             ops.append(o)
                     ops.append("CV:1:%s:n(0,1,0)" % hx("x"))
-                    ops.append("EXEC:1:" + hx(prog))
+                    ops.append("H:49:a1.")
+                    ops.append("REGF:%s:49" % hx("ident"))
+                    ops.append("EXEC:1:" + hx(SITES[site][0](prog)))
                     ops.append("EXEC:1:" + hx("1 + 1"))
                     ops.append("CD:1")
-                    items.append((" ".join(ops), (kind, aname, depth, hs[0], len(ops) - 3)))
+                    items.append((" ".join(ops), (kind, aname, depth, hs[0], len(ops) - 3, site)))
         return flow.mk_cases("reenter", items)
 
     def show(self, case):
-        k, a, d, h, n = case.meta
-        return {"handler": k, "action": a, "depth": d, "ops": case.line.split(" ")[1:]}
+        k, a, d, h, n, site = case.meta
+        return {"handler": k, "action": a, "depth": d, "site": site, "ops": case.line.split(" ")[1:]}
 
     def classify(self, case, impl):
         n = case.meta[4]
@@ -116,7 +135,7 @@ class P:
         return None
 
     def oracle(self, case, impl):
-        kind, aname, depth, h, n = case.meta
+        kind, aname, depth, h, n, site = case.meta
         outs = impl.split(" ")
         if len(outs) <= n: return "violates", "no result: " + impl[:60]
         o = outs[n]
@@ -125,7 +144,7 @@ class P:
         d = values.split_exec(o)
         if d["cls"] == "PANIC":
             return "violates", "the outer evaluation panicked: handler %s, action %s" % (kind, aname)
-        want = tagv(h)
+        want = SITES[site][1](tagv(h))
         if d["cls"] != "OK" or d["value"] != want:
             return "violates", "normal result %s expected, got %s" % (want, o[:60])
         d2 = values.split_exec(outs[n + 1])
